@@ -465,6 +465,19 @@ def check_no_leak(ctx):
                         return
                     st_src = self._static(src)
                     st_recv = self._static(recv)
+                    # writing into an object that still shares (sub-)dictionaries with the stored static context:
+                    # an alias, or a shallow copy handed to a recursive merge
+                    shared = [l for l in st_recv if not l.fresh]
+                    if shared and name not in ("_set_context",):
+                        recursive = idx is not None
+                        alias = not recv.fresh and any(lab[0] == "static" for lab in recv.labels)
+                        if recursive or alias:
+                            c.violation("C13-e", call, "%s.%s writes into `%s`, which shares dictionaries with the stored static context "
+                                        "(%s): what a value brings at run time becomes part of what the element was given when the "
+                                        "sequence was built, and the next value sees it" % (
+                                            cls.name, name, A.short(call.args[0] if idx is not None and call.args else call.func.value, 40),
+                                            shared[0].origin), construct="static-written:%s.%s" % (cls.name, name), path=state.path)
+                            return
                     if not st_src or st_recv:
                         return
                     if allowed_sink:
@@ -574,6 +587,9 @@ def check(ctx):
 
 
 VARIANTS = [
+    M("makefilename-shallow-merge", "lena/output/make_filename.py", "                full_context = deepcopy(self._context)\n                # runtime context takes precedence over the static one\n                full_context.update(context)", "                full_context = self._context.copy()\n                lena.context.update_recursively(full_context, context)", ["C13-e"]),
+    M("makefilename-alias-update", "lena/output/make_filename.py", "                full_context = deepcopy(self._context)\n", "                full_context = self._context\n", ["C13-e"]),
+    TW("makefilename-deep-merge", "lena/output/make_filename.py", "                full_context.update(context)", "                lena.context.update_recursively(full_context, deepcopy(context))"),
     M("split-skips-empty-context", "lena/core/split.py", "                contexts.append(seq._get_context())", "                context = seq._get_context()\n                if context:\n                    contexts.append(context)", ["C13-f"]),
     M("split-first-branch-only", "lena/core/split.py", "                contexts.append(seq._get_context())\n", "                contexts.append(seq._get_context())\n                break\n", ["C13-f"]),
     M("split-set-skips-first", "lena/core/split.py", "        for seq in self._seqs:\n            if hasattr(seq, \"_set_context\"):", "        for seq in self._seqs[1:]:\n            if hasattr(seq, \"_set_context\"):", ["C13-f"]),
